@@ -40,6 +40,10 @@ Proof. vm_compute. reflexivity. Qed.
 Lemma class_level_state_ok : set_eqb Gen_Members.class_level_attrs modelled_class_attrs = true.
 Proof. vm_compute. reflexivity. Qed.
 
+(* the member cache of _get_members() is written under the asking class's own name only, with a fresh list *)
+Lemma member_cache_keyed_by_own_class : cache_writes_okb Gen_Members.cache_writes = true.
+Proof. vm_compute. reflexivity. Qed.
+
 (* the validate() that the two build-time call sites run is validate() with its default arguments: the default of `recursive`
    is a bool literal and add()/component_factory pass nothing or that same literal *)
 Lemma build_time_validate_is_default_validate :
@@ -218,6 +222,25 @@ def pair_sessions(ck, tab, T, mir, exhaustive):
             sessions.append({"isolate": True, "pair": [p, d], "ops": [{"op": "enable"}, dict(fp), dict(fd)]})
             sessions.append({"isolate": True, "pair": [p, d], "ops": [{"op": "enable"}, {"op": "validate", "cls": p, "kw": pk}, dict(fd, via="utils", form="str")]})
             sessions.append({"isolate": True, "pair": [p, d], "ops": [{"op": "enable"}, dict(fd, after=None), dict(fp), dict(fd)]})
+        # third step: the ancestor AGAIN, after the derived type was used, with each member only the derived type has as a keyword:
+        # it is no member of the ancestor and must be refused (factory, both forms and the utils wrapper, and add(<class>))
+        own = [m["name"] for k in T.chain(d) if k not in T.chain(p) for m in vg.C[k]["mspecs"]]
+        own = [n for n in dict.fromkeys(own) if n not in [m["name"] for m in mir.members(p)]]
+        if own:
+            fpv = {"op": "factory", "cls": p, "kw": pk, "validate": True, "form": "str", "via": "classmethod", "kind": "valid", "key": None}
+            fdv = {"op": "factory", "cls": d, "kw": dk, "validate": True, "form": "str", "via": "classmethod", "kind": "valid", "key": None}
+            ops = [{"op": "enable"}, dict(fpv), dict(fdv)]
+            for i, n in enumerate(own):
+                val = next((v for k_, v in dk if k_ == n), {"s": "v"})
+                ops.append({"op": "factory", "cls": p, "kw": pk + [[n, val]], "validate": True, "form": ("str", "class")[i % 2],
+                            "via": ("classmethod", "utils")[(i // 2) % 2], "kind": "typo", "key": n, "after": d})
+            hosts = [h for h in mir.order if len(mir.targets(h, p)) == 1]
+            if hosts:
+                ops.append({"op": "add", "parent": hosts[0], "cls": p, "kw": pk + [[own[0], next((v for k_, v in dk if k_ == own[0]), {"s": "v"})]],
+                            "validate": False, "form": "str", "key": own[0], "typo": own[0]})
+            sessions.append({"isolate": True, "pair": [p, d], "ops": ops})
+            # and with the derived type used FIRST in the process (the ancestor's entry is then made by the derived type's walk)
+            sessions.append({"isolate": True, "pair": [p, d], "ops": [{"op": "enable"}, dict(fdv)] + [dict(o_) for o_ in ops[3:]]})
     ck.extra["ancestor_derived_pairs"] = len(pairs)
     return sessions
 
@@ -467,7 +490,14 @@ def evaluate(ck, sessions, results, initial):
                 ck.tally("thread-add:%s:%s" % ("on" if on else "off", "returns" if code == 0 else "raises"))
                 if not r.get("switch_unchanged", True):
                     ck.witness("C09:call-changes-the-global-switch", "add() changed the global switch", input=inp)
-                if "vchild" not in r:
+                if op.get("typo"):
+                    ck.tally("add:derived-only-keyword:%s" % ("raises" if code != 0 else "returns"))
+                    if code == 0 or r.get("exc_type") != "ValueError":
+                        ck.witness("C09:non-member-keyword-accepted", "%s().add(%r, .., %s=..): %s is no member of %s (only of a derived "
+                                   "type used earlier in the process) but add() %s" % (op["parent"], op["cls"], op["typo"], op["typo"],
+                                   op["cls"], "returns a component" if code == 0 else "raises " + str(r.get("exc"))),
+                                   input=inp, expected="ValueError: not a permitted argument", observed=r.get("code"))
+                elif "vchild" not in r:
                     ck.tally("thread-add:constructor-raises")
                 elif on and not r["vchild"] and (code == 0 or r.get("exc_type") != "ValueError"):
                     ck.witness("C09:add-returns-with-invalid-component", "validation is on (switched by the operations so far, this "
@@ -680,6 +710,13 @@ def run(ck):
             results.extend(out["results"])
             initial = out["initial"]
             c10.check_class_attrs(ck, out.get("new_class_attrs") or {}, {"first_session": part[0]["ops"][:3] if part else None})
+            for x in (out.get("member_cache") or [])[:1]:
+                if not ck.extra.get("member_cache_problem"):
+                    ck.extra["member_cache_problem"] = x
+                    ck.witness("C09:member-cache-wrong-or-aliased", "after the calls the per-class cache of _get_members() (the list the "
+                               "argument check consults) is wrong: %s" % x["problem"], input={"session": x["session"]},
+                               expected="one list per class, holding the members of the class and its ancestors", observed=out["member_cache"][:6])
+            ck.tally("member-cache-snapshots")
             rt = out.get("switch_runtime") or {}
             if rt != {"module_type_plain": True, "package_type_plain": True, "in_module_dict": "bool", "same_module": True,
                       "module_getattr": False} and not ck.extra.get("switch_runtime"):
